@@ -201,7 +201,15 @@ fn make_proto_doc_named(root: &Path, area: &str, name: &str, seed: u64, proto3: 
     Doc { name: name.to_string(), schema, dir, collapse: None, raw_idl: None, proto: Some(ps) }
 }
 
-const DIRECTED_PROTO: [(&str, &str, &str); 4] = [
+const DIRECTED_PROTO: [(&str, &str, &str); 5] = [
+    // several files ("//--- <name>" starts the next one): imports whose packages are prefixes
+    // of one another (lib, lib.ext, lib.ext.deep), referred to by partially and fully
+    // qualified names, the shorter package imported first
+    (
+        "import_prefix_packages",
+        "",
+        "syntax = \"proto3\";\npackage app;\nimport \"base.proto\";\nimport \"base_ext.proto\";\nimport \"base_deep.proto\";\nmessage Order {\n  lib.Base b = 1;\n  lib.ext.Tag t = 2;\n  repeated lib.ext.Tag.Kind ks = 3;\n  .lib.ext.deep.Leaf leaf = 4;\n  map<string, lib.ext.Tag> m = 5;\n  oneof o {\n    lib.ext.deep.Leaf ol = 6;\n    lib.Base ob = 7;\n  }\n}\n//--- base.proto\nsyntax = \"proto3\";\npackage lib;\nmessage Base {\n  int32 x = 1;\n}\n//--- base_ext.proto\nsyntax = \"proto3\";\npackage lib.ext;\nimport \"base.proto\";\nmessage Tag {\n  enum Kind {\n    K0 = 0;\n    K1 = 1;\n  }\n  Kind k = 1;\n  lib.Base base = 2;\n}\n//--- base_deep.proto\nsyntax = \"proto3\";\npackage lib.ext.deep;\nimport \"base_ext.proto\";\nmessage Leaf {\n  string s = 1;\n  lib.ext.Tag tag = 2;\n}\n",
+    ),
     (
         "no_package",
         "",
@@ -227,7 +235,13 @@ const DIRECTED_PROTO: [(&str, &str, &str); 4] = [
 fn make_directed_proto(root: &Path, k: usize) -> Doc {
     let (name, key, idl) = DIRECTED_PROTO[k];
     let dir = root.join("work").join("c14").join(format!("directed_{}", name));
-    write_if_changed(&dir.join("idl").join("c0.proto"), idl);
+    let mut parts = idl.split("\n//--- ");
+    write_if_changed(&dir.join("idl").join("c0.proto"), &format!("{}\n", parts.next().unwrap_or("").trim_end()));
+    for part in parts {
+        if let Some((fname, body)) = part.split_once('\n') {
+            write_if_changed(&dir.join("idl").join(fname.trim()), &format!("{}\n", body.trim_end()));
+        }
+    }
     let mut schema = Schema::default();
     schema.files.push(refmodel::schema::FileInfo { stem: "c0".into(), namespace: None, includes: vec![] });
     // a marker schema so that run_pbuild takes the protobuf path
@@ -624,7 +638,9 @@ fn c17(ctx: &Ctx) -> i32 {
     let mut corpora: Vec<Doc> = (0..ncorp)
         .map(|k| {
             let seed = if k < 2 { 0xC17_0000 + k as u64 } else { ctx.seed.wrapping_mul(104729).wrapping_add(k as u64) };
-            make_doc(&root, "c17", &format!("k{}", k), seed, "default", k % 2 == 0)
+            // the first corpus has sibling modules BELOW the first path segment by construction
+            // (shop.m0.model, shop.m1.model, shop.m2.model); the others draw their layout
+            make_doc(&root, "c17", &format!("k{}", k), seed, if k == 0 { "default@ns2" } else { "default" }, k % 2 == 0)
         })
         .collect();
     // protobuf corpora: messages with several nested messages / enums / oneofs at two levels
@@ -636,7 +652,7 @@ fn c17(ctx: &Ctx) -> i32 {
     // builder's default mode (ignore_unused) starts from the services and emits what they use
     for k in 0..ctx.scale(2, 4) as usize {
         let seed = if k < 2 { 0xC17_5000 + k as u64 } else { ctx.seed.wrapping_mul(7919).wrapping_add(k as u64) };
-        corpora.push(make_doc(&root, "c17", &format!("sp{}", k), seed, "sparse", k % 2 == 1));
+        corpora.push(make_doc(&root, "c17", &format!("sp{}", k), seed, if k == 0 { "sparse@ns2" } else { "sparse" }, k % 2 == 1));
     }
     // one namespace with several hundred items
     for k in 0..ctx.scale(1, 2) as usize {
